@@ -26,7 +26,7 @@ var c06RetryClass = map[string]string{
 	"ch_fresh_ctx": "decrypt_error", "ch_seq_skip": "decrypt_error",
 	"ch_outer_sni_changed": "illegal_parameter",
 	"ch_outer_no_tls13":    "illegal_parameter|decrypt_error",
-	"ch_sni_changed": "illegal_parameter", "ch_alpn_changed": "illegal_parameter", "ch_alpn_reordered": "illegal_parameter", "ch_no_inner_ext": "illegal_parameter",
+	"ch_sni_changed":       "illegal_parameter", "ch_alpn_changed": "illegal_parameter", "ch_alpn_reordered": "illegal_parameter", "ch_no_inner_ext": "illegal_parameter",
 }
 
 type c06ClientRec struct {
@@ -39,7 +39,7 @@ type c06ClientRec struct {
 func TestC06(t *testing.T) {
 	rec := ev.Get("C06")
 	rec.Rule("state machine over a Conn with an accepted first hello. Operations: client sends (well-formed retried hello sealed at the next sequence number, 11 ill-formed variants, plain hello, CCS, other handshake, application data, alert), backend queues (HRR, ServerHello, CCS, application data, other handshake) and flushes its pending bytes in drawn pieces, backend reads one record. Reference machine from the property: a ClientHello consumed while exactly one HRR has been completely written, no retry was processed and no client application data was seen is a retry (expected reconstructed inner, or the class of its defect, alert+close); every other record is forwarded unchanged. distinct = operation-kind sequence; non-trivial = history contains an HRR and a later ClientHello")
-	rec.Mandatory("ccs_between_hrr_and_hello", "hello_without_hrr", "hello_after_appdata", "hrr_split_across_writes", "retry_ok", "third_hello_forwarded",
+	rec.Mandatory("hrr_after_backend_appdata", "double_hrr", "ccs_between_hrr_and_hello", "hello_without_hrr", "hello_after_appdata", "hrr_split_across_writes", "retry_ok", "third_hello_forwarded",
 		"retry:ch_no_ech", "retry:ch_other_id", "retry:ch_other_suite", "retry:ch_enc_nonempty", "retry:ch_fresh_ctx", "retry:ch_seq_skip", "retry:ch_sni_changed", "retry:ch_alpn_changed", "retry:ch_no_inner_ext", "retry:ch_outer_sni_changed")
 	rapid.Check(t, func(t *rapid.T) {
 		sc := drawSealed(t, false)
@@ -53,10 +53,11 @@ func TestC06(t *testing.T) {
 		// model state
 		var pendingClient []c06ClientRec // sent by the client, not yet read by the backend
 		pendingClient = append(pendingClient, c06ClientRec{kind: "first", bytes: sc.Record, wantInner: sc.WantInner})
-		var backendQueued []byte // all bytes the backend has produced
-		flushed := 0                // bytes handed to Conn.Write
-		hrrEnd := -1                // offset in backendQueued where the HRR record ends
-		backendBlocksHRR := false   // SH / appdata queued: no HRR afterwards (excluded histories)
+		var backendQueued []byte  // all bytes the backend has produced
+		flushed := 0              // bytes handed to Conn.Write
+		hrrEnd := -1              // offset in backendQueued where the HRR record ends
+		backendBlocksHRR := false // SH / appdata queued: no (interpreted) HRR afterwards
+		backendAppData := false   // application data queued before any HRR
 		retryDone, clientAppData := false, false
 		recipientSeq := 1
 		var ops []string
@@ -338,7 +339,25 @@ func TestC06(t *testing.T) {
 				var b []byte
 				switch kind {
 				case "hrr":
-					if backendBlocksHRR || hrrEnd >= 0 {
+					if backendBlocksHRR && !backendAppData {
+						continue // HRR after a ServerHello: undefined, not generated
+					}
+					if backendAppData {
+						// after application data the stream is no longer interpreted:
+						// this HelloRetryRequest must be ignored
+						b = hrrRecord(tp.Outer.SessionID)
+						backendQueued = append(backendQueued, b...)
+						ops = append(ops, "bq:hrr_after_appdata")
+						cl = append(cl, "hrr_after_backend_appdata")
+						continue
+					}
+					if hrrEnd >= 0 {
+						// a second HelloRetryRequest (before anything else that would end the
+						// interpretation): still exactly one retry is processed
+						b = hrrRecord(tp.Outer.SessionID)
+						backendQueued = append(backendQueued, b...)
+						ops = append(ops, "bq:hrr2")
+						cl = append(cl, "double_hrr")
 						continue
 					}
 					b = hrrRecord(tp.Outer.SessionID)
@@ -358,6 +377,9 @@ func TestC06(t *testing.T) {
 				case "appdata":
 					b = hello.Record(23, 0x0303, hello.GenBytes(t, "bad", rapid.IntRange(0, 80).Draw(t, "badlen")))
 					backendBlocksHRR = true
+					if hrrEnd < 0 {
+						backendAppData = true
+					}
 				case "hs_other":
 					x := hello.GenBytes(t, "bhs", rapid.IntRange(1, 40).Draw(t, "bhslen"))
 					if x[0] == 2 {
